@@ -161,7 +161,7 @@ def p2(model: Model, rep: Report):
             a = a[0] if a else None
             got = {k: d.field(k) for k in ("qubit_index", "last_acquisition_index", "main_target", "secondary_target", "reference_offset", "secondary_offset")}
             want = {"qubit_index": a, "last_acquisition_index": _last_acq(sub_t), "main_target": _last_acq(sub_t, a), "secondary_target": None, "reference_offset": want_ref[i], "secondary_offset": None}
-            nrm = lambda t: _strip_lines(devar(t)) if t is not None else None
+            nrm = lambda t: _strip_lines(devar(t)) if t is not None and t != NONE else None    # an offset spelled out as None is an offset left out
             ok = all(nrm(got[k]) == nrm(want[k]) for k in got)
             found = {k: (show(v) if v is not None else None) for k, v in got.items() if nrm(got[k]) != nrm(want[k])} or "as pinned"
         rep.check(ok, "C09.P2", construct + "[detectors]", f.loc, found=found, required="last = last acquisition of this block; main = this ancilla's last acquisition in it; reference_offset as pinned",
